@@ -1053,3 +1053,162 @@ Record wf_resp (whole : bool) (r : resp) : Prop := {
 Record wf_rep (pr : rep) : Prop := {
   wfp_resps : forall r, In r (p_resps pr) -> wf_resp (p_whole pr) r;
   wfp_status : NoDup (map rs_status (p_resps pr)) }.
+
+(* ================================================================== content types
+   http/encoding.go: which body codec the server and the client pick, and what the
+   Content-Type header announces.
+     ResponseEncoder (negotiate, the switch on the designed content type, SetContentType),
+     ResponseDecoder, RequestEncoder, RequestDecoder, textEncoder.Encode, textDecoder.Decode.
+   mime.ParseMediaType is modelled for what these functions use of it: the media type is
+   TrimSpace(ToLower(text before the first ';')) (ASCII); whether Go ACCEPTS the string
+   (token syntax, parameter syntax) is not modelled: it is an input (`ok`), observed. *)
+
+Module MT.
+  Import Coq.Strings.String.
+  Local Open Scope string_scope.
+  Definition json := list_byte_of_string "application/json".
+  Definition xml := list_byte_of_string "application/xml".
+  Definition gob := list_byte_of_string "application/gob".
+  Definition html := list_byte_of_string "text/html".
+  Definition plain := list_byte_of_string "text/plain".
+  Definition sjson := list_byte_of_string "+json".
+  Definition sxml := list_byte_of_string "+xml".
+  Definition sgob := list_byte_of_string "+gob".
+  Definition shtml := list_byte_of_string "+html".
+  Definition stxt := list_byte_of_string "+txt".
+End MT.
+
+Inductive codec := CJson | CXml | CGob | CText.
+Definition codec_eqb (x y : codec) : bool :=
+  match x, y with CJson, CJson | CXml, CXml | CGob, CGob | CText, CText => true | _, _ => false end.
+
+(* strings.HasSuffix (has_prefix: above, query maps) *)
+Definition has_suffix (suf s : bstr) : bool := has_prefix (rev suf) (rev s).
+
+(* strings.Cut(s, ";") / strings.Index(s, ";"): text before the first ';' and the rest
+   from that ';' on (empty when there is none) *)
+Fixpoint cut_semi (s : bstr) : bstr * bstr :=
+  match s with
+  | [] => ([], [])
+  | c :: r => if Byte.eqb c semi then ([], s) else let (x, y) := cut_semi r in (c :: x, y)
+  end.
+Definition is_sp_tab (c : byte) : bool := ceq c 32 || ceq c 9.
+(* unicode.IsSpace on ASCII: \t \n \v \f \r and space *)
+Definition is_space (c : byte) : bool := in_range c 9 13 || ceq c 32.
+Fixpoint drop_while (f : byte -> bool) (s : bstr) : bstr :=
+  match s with c :: r => if f c then drop_while f r else s | [] => [] end.
+Definition trim_right (f : byte -> bool) (s : bstr) : bstr := rev (drop_while f (rev s)).
+Definition trim_space (s : bstr) : bstr := trim_right is_space (drop_while is_space s).
+Definition lower_byte (c : byte) : byte :=
+  if in_range c 65 90 then match Byte.of_N (bn c + 32) with Some d => d | None => c end else c.
+(* the media type mime.ParseMediaType returns when it accepts the string *)
+Definition media_type_part (s : bstr) : bstr := trim_space (map lower_byte (fst (cut_semi s))).
+Definition parse_media_type (ok : bool) (s : bstr) : option bstr :=
+  if ok then Some (media_type_part s) else None.
+
+(* the switch shared by ResponseEncoder (designed content type) and ResponseDecoder *)
+Definition family_of_ct (mt : bstr) : codec :=
+  if beq mt MT.json || has_suffix MT.sjson mt then CJson
+  else if beq mt MT.xml || has_suffix MT.sxml mt then CXml
+  else if beq mt MT.gob || has_suffix MT.sgob mt then CGob
+  else if beq mt MT.html || beq mt MT.plain || has_suffix MT.shtml mt || has_suffix MT.stxt mt then CText
+  else CJson.
+
+(* negotiate in ResponseEncoder: exact matches only *)
+Definition negotiate (a : bstr) : option (codec * bstr) :=
+  if is_nil a || beq a MT.json then Some (CJson, MT.json)
+  else if beq a MT.xml then Some (CXml, MT.xml)
+  else if beq a MT.gob then Some (CGob, MT.gob)
+  else if beq a MT.html || beq a MT.plain then Some (CText, a)
+  else None.
+
+(* strings.LastIndex(s, "+"): the text before the last '+', if there is one *)
+Fixpoint before_last_plus (s : bstr) : option bstr :=
+  match s with
+  | [] => None
+  | c :: r =>
+    match before_last_plus r with
+    | Some x => Some (c :: x)
+    | None => if Byte.eqb c plus then Some [] else None
+    end
+  end.
+
+(* SetContentType(w, ct) with h the Content-Type already present on the response *)
+Definition set_content_type (h ct : bstr) : bstr :=
+  if is_nil h then ct
+  else if negb (beq ct MT.json) && negb (beq ct MT.xml) then ct
+  else
+    let suffix := if beq ct MT.xml then MT.sxml else MT.sjson in
+    let (h0, params) := cut_semi h in
+    (* TrimRight only when a ';' was found *)
+    let mt := if is_nil params then h0 else trim_right is_sp_tab h0 in
+    if has_suffix suffix mt then h
+    else (match before_last_plus mt with Some x => x | None => mt end) ++ suffix ++ params.
+
+(* ResponseEncoder: ct = designed content type ("" = none; ctok: ParseMediaType accepts
+   it), accept = negotiated Accept value, h = Content-Type already on the response.
+   Result: the encoder picked (None: the nil encoder Go returns when the designed content
+   type does not parse; ParseMediaType then returns "" or, for a bad parameter, the media
+   type together with the error: PErr carries it) and the Content-Type header afterwards. *)
+Inductive parse_verdict := POk | PErr (returned : bstr).
+Definition resp_encoder (ct : bstr) (ctp : parse_verdict) (accept : bstr) (acceptok : bool) (h : bstr)
+  : option codec * bstr :=
+  if negb (is_nil ct) then
+    match ctp with
+    | POk => let mt := media_type_part ct in (Some (family_of_ct mt), set_content_type h mt)
+    | PErr m => (None, set_content_type h m)
+    end
+  else
+    let r := match negotiate accept with
+             | Some r => Some r
+             | None => match parse_media_type acceptok accept with Some mt => negotiate mt | None => None end
+             end in
+    let (c, mt) := match r with Some r => r | None => (CJson, MT.json) end in
+    (Some c, set_content_type h mt).
+
+(* ResponseDecoder: h = Content-Type of the response *)
+Definition resp_decoder (h : bstr) (hok : bool) : codec :=
+  if is_nil h then CJson
+  else family_of_ct (match parse_media_type hok h with Some mt => mt | None => h end).
+
+(* RequestEncoder: always JSON; Content-Type set only when the request has none *)
+Definition req_encoder (h : bstr) : codec * bstr := (CJson, if is_nil h then MT.json else h).
+
+(* RequestDecoder: exact matches, anything else is refused (415) *)
+Inductive req_dec := RDec (c : codec) | RUnsupported (ct : bstr).
+Definition req_decoder (h : bstr) (hok : bool) : req_dec :=
+  let ct := if is_nil h then MT.json
+            else match parse_media_type hok h with Some mt => mt | None => h end in
+  if beq ct MT.json then RDec CJson
+  else if beq ct MT.gob then RDec CGob
+  else if beq ct MT.xml then RDec CXml
+  else if beq ct MT.html || beq ct MT.plain then RDec CText
+  else RUnsupported ct.
+
+(* textEncoder / textDecoder: strings and byte slices, verbatim *)
+Inductive tval := TvStr (s : bstr) | TvBytes (s : bstr) | TvOther.
+Inductive ttarget := TgStr | TgBytes | TgOther.
+Definition text_encode (v : tval) : option bstr :=
+  match v with TvStr s | TvBytes s => Some s | TvOther => None end.
+Definition text_decode (t : ttarget) (body : bstr) : option tval :=
+  match t with TgStr => Some (TvStr body) | TgBytes => Some (TvBytes body) | TgOther => None end.
+Definition target_of (v : tval) : ttarget :=
+  match v with TvStr _ => TgStr | TvBytes _ => TgBytes | TvOther => TgOther end.
+
+(* a whole primitive result under a designed content type of the text family: the server
+   writes Content-Type and the text, the client picks its decoder from the header *)
+Inductive text_outcome := TReturned (v : tval) | TServerError | TClientError | TOtherCodec (c : codec).
+Definition respond_text (ct : bstr) (ctp : parse_verdict) (v : tval) : text_outcome :=
+  match resp_encoder ct ctp [] false [] with
+  | (None, _) => TServerError
+  | (Some CText, h) =>
+    match text_encode v with
+    | None => TServerError
+    | Some body =>
+      match resp_decoder h true with
+      | CText => match text_decode (target_of v) body with Some r => TReturned r | None => TClientError end
+      | c => TOtherCodec c
+      end
+    end
+  | (Some c, _) => TOtherCodec c
+  end.
